@@ -1,5 +1,6 @@
 """C18 — pad, cut-off, integer scaling and channel assignment do exactly what they say."""
 import gens as G
+import h4seq_util as U
 import pyimpl as P
 from oracle_util import *  # noqa
 from protocol import from_real
@@ -39,6 +40,7 @@ RULE = ("well-formed multi-channel sequences (<=8 notes, ticks<200) x n in {belo
 ASSUMPTIONS = ["models: SCoda.pad, SCoda.cutoff, SCoda.scaleRel, SCoda.setChannel, tied by correspondence"]
 
 
+D25_STORED = None
 WRAP_STATES = ["rel", "abs", "both", "stale-rel", "stale-abs", "churned", "abs-given", "abs-insort"]
 OBS = " ## observed="
 
@@ -146,24 +148,28 @@ def o_scale(inp):
         out = [from_real(m) for m in sq.rel._messages]
         observed = out
     elif inp.get("default_call"):
-        # `seq.scale(k)` as a caller writes it: quantise_afterwards defaults to True (known finding D25).  The call must be exactly
-        # scale(k, quantise_afterwards=False) followed by quantise_and_normalise(): that second object is built from the generator's data
-        # scaled HERE, and then runs the library's quantise_and_normalise (quantise / quantise_note_lengths / normalise are the subject of
-        # C05 / C06 / C07; re-implementing all three here is not feasible, so this expectation does use them — on a fresh, independent object)
+        # `seq.scale(k)` as a caller writes it: quantise_afterwards defaults to True (known finding D25).  What that call has to return is taken
+        # from the LEAN HAND MODEL of the wrapper (audit round 4, A5 / B4: h4seq_util.model_scale_default asks the compiled driver for
+        # `scale k true; readRel` on the generator's relative list) — tied to the source by proofs and correspondence, but not the code under
+        # test, so a library whose quantise / quantise_note_lengths / normalise / default tables changed no longer matches it.
+        # Kept as a second, purely RELATIONAL clause: the call equals scale(k, quantise_afterwards=False) followed by quantise_and_normalise() on
+        # a second object (both sides run the library, so this says nothing about what those functions compute)
         sq = P.seq_in_state(rel, inp.get("state", "rel"))
         sq.scale(k)
         out = [from_real(m) for m in sq.rel._messages]
         out_abs = [from_real(m) for m in sq.abs._messages]
+        got = (_events(rel_timed(out)[0]), rel_timed(out)[1])
         ref = P.seq_of_rel([(m[0], m[1], m[2] * k) + tuple(m[3:]) if m[0] == WAIT else m for m in rel])
         ref.quantise_and_normalise()
         ref_rel = [from_real(m) for m in ref.rel._messages]
-        same = (_events(rel_timed(out)[0]), rel_timed(out)[1]) == (_events(rel_timed(ref_rel)[0]), rel_timed(ref_rel)[1])
-        if not same:
+        if got != (_events(rel_timed(ref_rel)[0]), rel_timed(ref_rel)[1]):
             fails.append(("scale-default", f"scale({k}) is not scale({k}, quantise_afterwards=False) followed by quantise_and_normalise(): "
                           f"got {out[:8]}, the two calls give {ref_rel[:8]}"))
-        if (_events(abs_timed(out_abs)[0]), abs_timed(out_abs)[1] if out_abs else 0) != (_events(rel_timed(out)[0]), rel_timed(out)[1]):
+        if (_events(abs_timed(out_abs)[0]), abs_timed(out_abs)[1] if out_abs else 0) != got:
             fails.append(("scale-default", f"after scale({k}) the two views differ"))
-        observed = {"is_scale_then_quantise_and_normalise": not fails}
+        model = U.model_scale_default(rel, k)
+        observed = {"events": [list(e) for e in got[0]], "duration": got[1],
+                    "equals_hand_model": model is not None and model[0] != "ERR" and (sorted(model[0]), model[1]) == (sorted(got[0]), got[1])}
     else:
         s = P.mk_rel(rel)
         s.scale(k)
@@ -240,10 +246,11 @@ def o_wrapper(inp):
             elif op == "scale-default":
                 k = args[0]
                 s.scale(k)
-                # = scale(k, False) then quantise_and_normalise(), run as two calls on a fresh object built from data scaled here (see o_scale)
-                ref = P.seq_of_rel([(m[0], m[1], m[2] * k) + tuple(m[3:]) if m[0] == WAIT else m for m in rel])
-                ref.quantise_and_normalise()
-                exp_t, exp_d = rel_timed([from_real(m) for m in ref.rel._messages])
+                # what scale(k) with the default flag returns: the Lean hand model's answer on the generator's list (see o_scale; audit round 4)
+                model = U.model_scale_default(rel, k)
+                if model is None or model[0] == "ERR":
+                    return [("~skip:no-model-answer", "")]
+                exp_t, exp_d = [(e[0], (e[1], e[2], None) + tuple(None if x == -1 else x for x in e[3:])) for e in model[0]], model[1]
             else:
                 return [("~skip:unknown-op", op)]
         except Exception as e:
@@ -320,12 +327,23 @@ def setup(ctx):
     ctx.kf_predicates["D24b"] = kf_d24b
 
     def kf_d25(f):
-        # the default call scale(k) re-quantises and normalises afterwards: known only for the literal 'x k' clauses and only when the oracle
-        # found the outcome to BE scale(k, False) followed by quantise_and_normalise() (anything else raises clause scale-default, never known)
+        # the default call scale(k) re-quantises and normalises afterwards: known only for the literal 'x k' clauses and only when the OUTCOME is
+        # the one the finding describes — the observed events and duration are exactly what the LEAN HAND MODEL computes for scale(k) with the
+        # default flag on the generator's list (audit round 4, A5 / B4: no longer the library's own quantise_and_normalise); for the recorded
+        # example the events stored in known_findings.json are compared as well
         obs = observed_of(f)
-        return f["oracle"] == "scale" and bool(f["input"].get("default_call")) and f["clause"] in ("scale-events", "scale-duration") \
-            and isinstance(obs, dict) and obs.get("is_scale_then_quantise_and_normalise") is True
+        if not (f["oracle"] == "scale" and bool(f["input"].get("default_call")) and f["clause"] in ("scale-events", "scale-duration")
+                and isinstance(obs, dict) and obs.get("equals_hand_model") is True):
+            return False
+        if [list(m) for m in f["input"]["rel"]] == [list(m) for m in D25_EXAMPLE["rel"]] and f["input"]["k"] == D25_EXAMPLE["k"]:
+            return [obs["events"], obs["duration"]] == D25_STORED
+        return True
     ctx.kf_predicates["D25"] = kf_d25
+    import json as _json
+    import os as _os
+    global D25_STORED
+    with open(_os.path.join(_os.path.dirname(_os.path.dirname(_os.path.dirname(_os.path.abspath(__file__)))), "known_findings.json")) as _f:
+        D25_STORED = next(x for x in _json.load(_f)["findings"] if x["id"] == "D25").get("example_observed_events")
 
 
 D24B_EXAMPLE = {"rel": [G.pm(ON, 0, None, note=60, vel=64), G.pm(WAIT, 0, 12), G.pm(OFF, 0, None, note=60), G.pm(WAIT, 0, 12)], "k": 2, "aliased": 2}
